@@ -26,6 +26,12 @@ impl<T: Send + Sync> Drop for ConIterOfVec<T> {
         if current <= self.vec_len {
             let _remaining_vec_to_be_dropped = unsafe { self.split_off_right(current) };
         }
+
+        // release the buffer: what is left in it has been moved out and must not be dropped
+        unsafe {
+            let mut vec = ManuallyDrop::take(&mut *self.vec.get());
+            vec.set_len(0);
+        }
     }
 }
 
